@@ -3,6 +3,8 @@
 package c15
 
 import (
+	"sync/atomic"
+
 	"bufio"
 	"bytes"
 	"fmt"
@@ -25,6 +27,11 @@ import (
 )
 
 type P struct{}
+
+// reportKnown: the op in progress is one of the designated single-op cases (twinxw / twinfw) in which
+// the logger-error classes that are open findings are reported; everywhere else they are only counted,
+// so that they cannot mask another failure of the same case.
+var reportKnown atomic.Bool
 
 func init() {
 	core.Register(P{})
@@ -219,6 +226,15 @@ func (e *ex) Do(op string) core.Result {
 		return twin(t, false)
 	case "twinx":
 		return twin(t, true)
+	case "twinxw":
+		// twinx in a case of its own that also reports the logger-error classes that are open findings
+		reportKnown.Store(true)
+		defer reportKnown.Store(false)
+		return twin(t, true)
+	case "twinfw":
+		reportKnown.Store(true)
+		defer reportKnown.Store(false)
+		return twinFault(t)
 	case "twinm":
 		return twinMarks(t)
 	case "multi":
@@ -621,6 +637,9 @@ func twinOpt(t []string, x bool, mk *marks) core.Result {
 	if skiplog && rec != 0 && logger != "snapshot" {
 		r := fail("c15:skip-logging-recorded:"+logger, "exchange marked skip-logging was recorded by the %s logger", logger)
 		r.Impl = impl
+		return r
+	}
+	if r, bad := loggerErrorVerdict(logger, o1, o2, a, modErr, "", impl); bad {
 		return r
 	}
 	if modErr != nil && !x {
